@@ -704,6 +704,123 @@ def run_c17(case):
     return {"a1": a1, "a2": a2, "b": b, "a_threads": decisions(case["runs_a"], threaded=True), "kept": a1.count("save"), "n": len(a1)}
 
 
+def run_mutation_probe(case):
+    """C01 probe stream (implementation only, self-contained): hand-written straight-line operations that keep working IN
+    PLACE on what an intercepted input returned, AFTER it was captured, with copy-on-interception on, and whose later
+    behaviour (outputs sent, result) depends on the container's state before and after the change.  Steps:
+    ["load", var, alias] (var = the intercepted input `alias`, whose body returns a fresh to_py(case["inputs"][alias])),
+    ["mut", var, path, op, arg] (in-place `op` on the node reached from var along path: int index / str key / ["attr", name]),
+    ["send", var] (the intercepted output `send` gets an immutable snapshot text of var), ["force"] (the operation calls
+    force_sample_recording(); case["rate"] is the class's sampling rate), ["ret", [var, ..]] (the operation returns the
+    snapshot texts).  Recorded into the case's cassette, replayed case["plays"] times on the same code."""
+    inner, cleanup = make_cassette(case.get("cassette", "memory"))
+    spy = Spy(inner)
+    rec = TapeRecorder(spy)
+    handed, bodies = [], []
+
+    def show(j):
+        t, v = j["t"], j.get("v")
+        if t in ("list", "tuple", "set"):
+            inner_ = ", ".join(show(x) for x in v)
+            return {"list": "[%s]", "tuple": "(%s,)" if len(v) == 1 else "(%s)", "set": "set{%s}"}[t] % inner_
+        if t in ("dict", "obj"):
+            inner_ = ", ".join("%s: %s" % (json.dumps(k), show(x)) for k, x in v)
+            return "{%s}" % inner_ if t == "dict" else "%s{%s}" % (j["cls"].rsplit(".", 1)[-1], inner_)
+        return json.dumps(v) if t in ("str", "int", "bool", "none") else json.dumps(j, sort_keys=True)
+
+    def snap(v):
+        """immutable, canonical (dict / attribute / set order insensitive, type aware) text of a value"""
+        return show(pv.canon_json(from_py(v)))
+
+    def node(v, path):
+        for p in path:
+            v = getattr(v, p[1]) if isinstance(p, list) else v[p]
+        return v
+
+    def mutate(o, op, arg):
+        a = None if arg is None else to_py(arg)
+        if op == "setattr":
+            setattr(o, a[0], a[1])
+        elif op == "setitem":
+            o[a[0]] = a[1]
+        elif op == "delitem":
+            del o[a]
+        elif op == "sort":
+            o.sort()
+        elif op in ("append", "extend", "add", "update", "remove", "discard"):
+            getattr(o, op)(a)
+        elif op in ("clear", "reverse", "pop", "popitem"):
+            getattr(o, op)()
+        else:
+            raise ValueError(op)
+
+    def make_input(alias):
+        handler = {"none": None, "plain": WrapIn(plain=True), "wrap": WrapIn()}[case.get("handler", "none")]
+
+        def body(*a):
+            bodies.append(alias)
+            return to_py(case["inputs"][alias])
+        if case.get("static"):
+            return rec.static_intercept_input(alias, data_handler=handler)(body)
+        fn = rec.intercept_input(alias, data_handler=handler)(lambda self, *a: body(*a))
+        return lambda *a: fn(holder, *a)
+
+    holder = object()
+    inputs = {alias: make_input(alias) for alias in sorted(case["inputs"])}
+    send = rec.static_intercept_output("send")(lambda text: None)
+
+    @rec.recording_params(RecordingParameters(sampling_rate=case.get("rate", 1.0), copy_data_on_intercepion=bool(case.get("copy", True))))
+    class MutOp(object):
+        @rec.operation()
+        def execute(self):
+            env = {}
+            for st in case["steps"]:
+                if st[0] == "load":
+                    env[st[1]] = inputs[st[2]](*[to_py(x) for x in st[3:]])
+                    handed.append([st[2], snap(env[st[1]])])
+                elif st[0] == "mut":
+                    mutate(node(env[st[1]], st[2]), st[3], st[4] if len(st) > 4 else None)
+                elif st[0] == "send":
+                    send(snap(env[st[1]]))
+                elif st[0] == "force":
+                    rec.force_sample_recording()
+                elif st[0] == "ret":
+                    return [snap(env[v]) for v in st[1]]
+            return None
+
+    def attempt(f):
+        del handed[:], bodies[:]
+        try:
+            r = f()
+            o = {"o": "val", "v": from_py(r)}
+        except BaseException as ex:
+            o = outcome_of_exc(ex)
+        return o, [list(h) for h in handed], list(bodies)
+
+    out = {"plays": []}
+    try:
+        rec.enable_recording()
+        out["outcome"], out["handed"], _ = attempt(lambda: MutOp().execute())
+        rec.disable_recording()
+        saves = [c for c in spy.log if c["c"] == "save"]
+        out["saved"] = bool(saves)
+        out["fetch_ok"] = bool(saves) and saves[0]["fetch_ok"]
+        out["recorded"] = saves[0]["data"] if saves else None
+        for _ in range(case.get("plays", 1) if saves else 0):
+            box = {}
+
+            def play():
+                box["pb"] = rec.play(spy.ids[0], lambda recording: MutOp().execute())
+            o, h, b = attempt(play)
+            pb = box.get("pb")
+            out["plays"].append({"outcome": o, "handed": h, "bodies_run": b,
+                                 "pbouts": datum_list((x.key, x.value) for x in pb.playback_outputs) if pb else [],
+                                 "recouts": datum_list((x.key, x.value) for x in pb.recorded_outputs) if pb else []})
+    finally:
+        cleanup()
+    return out
+
+
 def run_c04(case):     # (C04 and C05: recorder histories and racing-threads cases)
     if case.get("kind") == "probe":
         import c04_probes
@@ -716,6 +833,7 @@ def run_c04(case):     # (C04 and C05: recorder histories and racing-threads cas
 
 if __name__ == '__main__':
     hs = {p: run_history for p in ("C01", "C02", "C03", "C05", "C09", "C18", "REC")}
+    hs["C01"] = lambda case: run_mutation_probe(case) if case.get("kind") == "mutation" else run_history(case)
     hs["C04"] = run_c04
     hs["C05"] = run_c04
     hs["C09"] = run_c04
